@@ -237,11 +237,11 @@ package gojq
 //@   defines c == cmpv(l, r)
 
 //@ func binopTypeSwitch[int]@Compare(l, r any, callbackInts, callbackFloats, callbackBigInts, callbackStrings, callbackArrays, callbackMaps, fallback) (c int)
-//@   property C11
+//@   property C11 C10
 //@   ensures c == cmpv(l, r)
 
 //@ func Compare(l, r any) (c int)
-//@   property C11
+//@   property C11 C10
 //@   ensures c == cmpv(l, r)
 
 // ---------------------------------------------------------------------------------------
